@@ -145,7 +145,10 @@ pub fn truthiness_may_be_static(e: &Expr) -> bool {
             BinOp::Add | BinOp::Sub | BinOp::Mul | BinOp::Div | BinOp::IDiv | BinOp::Mod | BinOp::Pow | BinOp::Concat => true,
             _ => truthiness_may_be_static(a) && truthiness_may_be_static(b),
         },
-        Expr::IfExpr { clauses, else_ } => clauses.iter().all(|c| truthiness_may_be_static(&c.1)) && truthiness_may_be_static(else_),
+        // a statically known condition prunes branches; otherwise every result must be known
+        Expr::IfExpr { clauses, else_ } => {
+            clauses.iter().any(|c| truthiness_may_be_static(&c.0)) || (clauses.iter().all(|c| truthiness_may_be_static(&c.1)) && truthiness_may_be_static(else_))
+        }
         Expr::Cast { expr, .. } => truthiness_may_be_static(expr),
         // convert_square_root_call turns math.sqrt(x) into x ^ 0.5, which a folder then evaluates
         Expr::Call { f, args, .. } => {
